@@ -144,6 +144,9 @@ func c15mRules() []c15mRule {
 		{"labels-expr-exists", expr("env", "Exists", nil)},
 		{"labels-expr-doesnotexist", expr("env", "DoesNotExist", c15mA{})},
 		{"labels-expr-and-labels", pods(c15mJ{"labelSelector": c15mJ{"matchLabels": c15mJ{"env": "p"}, "matchExpressions": c15mA{c15mJ{"key": "tier", "operator": "In", "values": c15mA{"x"}}}}})},
+		{"labels-and-expr-notin", pods(c15mJ{"labelSelector": c15mJ{"matchLabels": c15mJ{"env": "p"}, "matchExpressions": c15mA{c15mJ{"key": "tier", "operator": "NotIn", "values": c15mA{"y"}}}}})},
+		{"labels-and-expr-exists", pods(c15mJ{"labelSelector": c15mJ{"matchLabels": c15mJ{"env": "p"}, "matchExpressions": c15mA{c15mJ{"key": "tier", "operator": "Exists"}}}})},
+		{"labels-and-expr-doesnotexist", pods(c15mJ{"labelSelector": c15mJ{"matchLabels": c15mJ{"env": "p"}, "matchExpressions": c15mA{c15mJ{"key": "tier", "operator": "DoesNotExist"}}}})},
 		{"selector-in-without-values", expr("tier", "In", c15mA{})},
 		{"selector-exists-with-values", expr("tier", "Exists", c15mA{"x"})},
 		{"selector-unknown-operator", expr("tier", "Near", c15mA{"x"})},
@@ -196,7 +199,9 @@ func c15mObjects() []c15mJ {
 		c15mObj("v1", "Pod", "ns2", "a", c15mJ{"tier": "x"}),
 		c15mObj("v1", "Pod", "ns2", "c", nil),
 		c15mObj("v1", "Pod", "ns3", "b", c15mJ{"env": "q", "tier": "z"}),
-		c15mObj("v1", "Pod", "ns1", "c", c15mJ{"tier": int64(3)}), // labels that are not all strings read as no labels
+		c15mObj("v1", "Pod", "ns1", "d", c15mJ{"tier": "y", "env": "p"}), // passes matchLabels env=p, fails tier In [x] / NotIn [y]
+		c15mObj("v1", "Pod", "ns1", "e", c15mJ{"env": "p"}),              // passes matchLabels, has no tier
+		c15mObj("v1", "Pod", "ns1", "c", c15mJ{"tier": int64(3)}),        // labels that are not all strings read as no labels
 		c15mObj("apps.example.com/v1", "Widget", "ns1", "a", c15mJ{"tier": "x"}),
 		c15mObj("v1", "Namespace", "", "ns1", c15mJ{"tier": "x"}),
 		c15mObj("v1", "Pod", "", "a", c15mJ{"tier": "x"}), // a namespaced kind without a namespace
